@@ -47,6 +47,7 @@ ORACLE_GROUPS = {
     'C06': [('src/algorithms/centrality/closeness.rs', 'closeness_oracle')],
     'C15': [('src/graph/convert.rs', 'derived_oracle'), ('src/graph/subgraph.rs', 'derived_oracle')],
     'C16': [('src/generators/', 'generators_oracle')],
+    'C18': [('src/algorithms/centrality/eigenvector.rs', 'eigenvector_oracle')],
 }
 
 
